@@ -240,7 +240,7 @@ pub fn decode_nal<'a>(nal_unit: &'a [u8]) -> Result<Cow<'a, [u8]>, std::io::Erro
         return Ok(Cow::Borrowed(&nal_unit[1..]));
     }
     // Upper bound estimate; skipping the NAL header and at least one emulation prevention byte.
-    let mut dst = Vec::with_capacity(nal_unit.len() - 2);
+    let mut dst = Vec::with_capacity(nal_unit.len().saturating_sub(2));
     loop {
         let buf = reader.fill_buf()?;
         if buf.is_empty() {
